@@ -918,21 +918,63 @@ func (r *run) applyContractSig(fr *frame, cur *node, callee string, fc *contract
 	if i := strings.LastIndex(short, "."); i >= 0 && !strings.HasPrefix(short, "(") {
 		short = short[i+1:]
 	}
-	for k, cl := range fc.Requires {
-		gparts := en.evalGoalParts(cl.Expr)
-		g := r.C().And(gparts...)
-		for j, cj := range gparts {
-			name := fmt.Sprintf("%spre[%s.%d", fr.path, callee, k)
-			if j > 0 {
-				name += fmt.Sprintf(".c%d", j)
-			}
-			name += "]"
-			r.oblige("requires", name, cur.alive, cj, "requires "+cl.Text+" (at call of "+callee+")")
+	// a contract that is a family (foreach k ... requires[bind] p == e(k)): at a call site every instance
+	// applies under the condition that the bound parameters have the instance's values
+	type cinst struct {
+		vars map[string]TV
+		cond *smt.Term
+		tag  string
+	}
+	insts := []cinst{{en.vars, c.True(), ""}}
+	if fc.Foreach != nil {
+		fis, err := r.E.foreachInstances(fc.Foreach, pkg)
+		if err != nil {
+			r.unsupported("contract family of %s: %v", callee, err)
 		}
-		r.assume(cur.alive, g)
+		insts = nil
+		for _, fi := range fis {
+			sub := en.child()
+			sub.vars[fi.Var] = fi.Val
+			cond := c.True()
+			for _, cl := range fc.Requires {
+				if cl.Label == "bind" {
+					cond = c.And(cond, sub.evalBool(cl.Expr))
+				}
+			}
+			if cond.IsFalse() {
+				continue
+			}
+			insts = append(insts, cinst{sub.vars, cond, ":" + fi.Label})
+		}
+	}
+	for k, cl := range fc.Requires {
+		if fc.Foreach != nil && cl.Label == "bind" {
+			continue
+		}
+		for _, in := range insts {
+			ien := &env{r: r, pkg: pkg, vars: in.vars, cur: cur, old: cur, fr: fr}
+			gparts := ien.evalGoalParts(cl.Expr)
+			g := r.C().And(gparts...)
+			for j, cj := range gparts {
+				name := fmt.Sprintf("%spre[%s.%d%s", fr.path, callee, k, in.tag)
+				if j > 0 {
+					name += fmt.Sprintf(".c%d", j)
+				}
+				name += "]"
+				r.oblige("requires", name, c.And(cur.alive, in.cond), cj, "requires "+cl.Text+" (at call of "+callee+")")
+			}
+			r.curTag = normTag(in.tag)
+			r.assume(c.And(cur.alive, in.cond), g)
+			r.curTag = ""
+		}
 	}
 	after := fr.syntheticAfter(cur)
-	// ghost updates
+	// havoc modifies
+	en2 := &env{r: r, pkg: pkg, vars: en.vars, cur: after, old: cur, fr: fr}
+	for _, m := range fc.Modifies {
+		en2.havoc(m, after)
+	}
+	// ghost updates (evaluated in the pre-state; they override the havoc of a ghost named in modifies)
 	for _, s := range fc.Sets {
 		gv := r.E.Ghosts[s.LetNames[0]]
 		if gv == nil {
@@ -941,11 +983,6 @@ func (r *run) applyContractSig(fr *frame, cur *node, callee string, fc *contract
 		}
 		tv := en.eval(s.Expr, gv.T)
 		after.setPV("G$"+gv.Name, r.scalarOf(en.coerceTo(tv, gv.T).V, gv.T))
-	}
-	// havoc modifies
-	en2 := &env{r: r, pkg: pkg, vars: en.vars, cur: after, old: cur, fr: fr}
-	for _, m := range fc.Modifies {
-		en2.havoc(m, after)
 	}
 	var res Value
 	if results != nil && results.Len() > 0 {
@@ -970,11 +1007,26 @@ func (r *run) applyContractSig(fr *frame, cur *node, callee string, fc *contract
 			for _, fi := range fis {
 				sub := en2.child()
 				sub.vars[fi.Var] = fi.Val
+				r.curTag = normTag(fi.Label)
 				r.assume(after.alive, sub.evalBool(cl.Expr))
+				r.curTag = ""
 			}
 			continue
 		}
-		r.assume(after.alive, en2.evalBool(cl.Expr))
+		for _, in := range insts {
+			ien := &env{r: r, pkg: pkg, vars: map[string]TV{}, cur: after, old: cur, fr: fr}
+			for k, v := range en2.vars {
+				ien.vars[k] = v
+			}
+			for k, v := range in.vars {
+				if _, has := ien.vars[k]; !has {
+					ien.vars[k] = v
+				}
+			}
+			r.curTag = normTag(in.tag)
+			r.assume(c.And(after.alive, in.cond), ien.evalBool(cl.Expr))
+			r.curTag = ""
+		}
 	}
 	return res, after
 }
@@ -1298,4 +1350,14 @@ func instrIndex(in ssa.Instruction) int {
 		}
 	}
 	return -1
+}
+
+// normTag: family instance labels are compared without package qualifier and leading colon
+// ("riscv.ASUBW", ":ASUBW" and "ASUBW" name the same instance).
+func normTag(s string) string {
+	s = strings.TrimPrefix(s, ":")
+	if i := strings.LastIndex(s, "."); i >= 0 {
+		s = s[i+1:]
+	}
+	return s
 }
